@@ -23,7 +23,7 @@ for top in ("pkg", "cmd"):
             if not f.endswith(".go") or f.endswith("_test.go"):
                 continue
             p = os.path.join(d, f)
-            s = open(p).read()
+            s = open(base.get(p, p)).read()  # a patched copy from the base overlay takes the place of the /repo file
             if not imp.search(s):
                 continue
             s2 = imp.sub(r'\1sync "github.com/siglens/siglens/pkg/zzvsync"', s, count=1)
